@@ -93,7 +93,18 @@ func init() {
 }
 
 // Extractor holds the state shared by all paths of one injector.
+// ExtractOptions tune the extractor for sequential code (C13).
+type ExtractOptions struct {
+	// Sequential: no goroutines expected; local aggregates are built
+	// concretely (no shared-cell tracking) and function literals are
+	// interpreted, so that struct literals become constructor terms.
+	Sequential bool
+	// IsUserPkg reports packages whose functions are opaque providers.
+	IsUserPkg func(path string) bool
+}
+
 type Extractor struct {
+	Opt      ExtractOptions
 	E        *Engine
 	Pkg      *ssa.Package
 	F        *ssa.Function
@@ -275,6 +286,9 @@ func inCorpusPkg(fn *ssa.Function, pkg *ssa.Package) bool {
 
 func (x *Extractor) provSym(fn *ssa.Function) string {
 	if fn.Parent() == nil && fn.Synthetic == "" {
+		if fn.Pkg != nil && fn.Pkg != x.Pkg {
+			return fn.Pkg.Pkg.Name() + "_" + fn.Name()
+		}
 		return fn.Name()
 	}
 	return "lit_" + sanitize(types.TypeString(fn.Signature, qualNone))
@@ -411,7 +425,7 @@ func (x *Extractor) install() {
 			if x.cur.thread == 0 {
 				ev := CEvent{Kind: "return", Err: "Nil", Ret: "NONE", HasErr: x.prog.HasErrRes, Site: x.returnSite()}
 				if len(vals) > 0 {
-					ev.Ret = toV(vals[0])
+					ev.Ret = toVT(vals[0], fr.fn.Signature.Results().At(0).Type())
 				}
 				if x.prog.HasErrRes {
 					ev.Err = errTerm(vals[len(vals)-1])
@@ -428,7 +442,7 @@ func (x *Extractor) install() {
 	}
 	e.Hooks.MakeChan = e.Hooks.MakeChan
 	e.AllocHook = func(ps *PathState, fr *frame, instr *ssa.Alloc, addr *value) {
-		if !instr.Heap || fr.fn != x.F {
+		if !instr.Heap || fr.fn != x.F || x.Opt.Sequential {
 			return
 		}
 		id, ok := x.cellIDs[instr]
@@ -442,7 +456,17 @@ func (x *Extractor) install() {
 		x.cells[addr] = id
 	}
 	e.OpaqueCall = func(ps *PathState, fr *frame, fn *ssa.Function, args []value) (value, bool) {
-		if fn == x.cur.entry || !inCorpusPkg(fn, x.Pkg) || strings.HasPrefix(fn.Name(), "verif") {
+		user := inCorpusPkg(fn, x.Pkg)
+		if !user && x.Opt.IsUserPkg != nil {
+			user = x.Opt.IsUserPkg(pkgOf(fn))
+		}
+		if fn == x.cur.entry || !user || strings.HasPrefix(fn.Name(), "verif") {
+			return nil, false
+		}
+		if x.Opt.Sequential && fn.Parent() != nil {
+			return nil, false // function literals are interpreted
+		}
+		if fn.Name() == "init" || strings.HasPrefix(fn.Name(), "init#") {
 			return nil, false
 		}
 		if fn.Synthetic != "" && fn.Synthetic != "bound method wrapper" {
@@ -450,8 +474,12 @@ func (x *Extractor) install() {
 		}
 		sym := x.provSym(fn)
 		var at []string
-		for _, a := range args {
-			at = append(at, toV(a))
+		for i, a := range args {
+			var pt types.Type
+			if i < fn.Signature.Params().Len() {
+				pt = fn.Signature.Params().At(i).Type()
+			}
+			at = append(at, toVT(a, pt))
 		}
 		// closures capture free variables: not produced by the generator for providers
 		res := fn.Signature.Results()
@@ -579,7 +607,11 @@ func (x *Extractor) returnSite() string {
 
 // ExtractInjector runs F and every closure it spawns.
 func ExtractInjector(e *Engine, pkg *ssa.Package, f *ssa.Function) *CProgram {
-	x := &Extractor{E: e, Pkg: pkg, F: f,
+	return ExtractInjectorOpt(e, pkg, f, ExtractOptions{})
+}
+
+func ExtractInjectorOpt(e *Engine, pkg *ssa.Package, f *ssa.Function, opt ExtractOptions) *CProgram {
+	x := &Extractor{Opt: opt, E: e, Pkg: pkg, F: f,
 		cells: map[*value]string{}, cellIDs: map[*ssa.Alloc]string{}, chanIDs: map[*ssa.MakeChan]string{},
 		spawnFns: map[int]value{}, spawnIdx: map[*ssa.Function]int{},
 		prog: &CProgram{Func: f.Name(), Provs: map[string]int{}, Flds: map[string]bool{}}}
@@ -640,4 +672,55 @@ func ExtractInjector(e *Engine, pkg *ssa.Package, f *ssa.Function) *CProgram {
 		runThread(id, fmt.Sprintf("g%d", id), fv, fn, nil)
 	}
 	return x.prog
+}
+
+// toVT renders a value of static type t; aggregates built by the code itself
+// (struct literals) become constructor terms over their fields.
+func toVT(v value, t types.Type) string {
+	if t == nil {
+		return toV(v)
+	}
+	switch x := v.(type) {
+	case iface:
+		if x.t == nil {
+			return "ZEROV"
+		}
+		if x.t == symCtxType {
+			return "in_ctx"
+		}
+		return toVT(x.v, x.t)
+	case *value:
+		if x == nil {
+			return "ZEROV"
+		}
+		if pt, ok := t.Underlying().(*types.Pointer); ok {
+			if st, ok := pt.Elem().Underlying().(*types.Struct); ok {
+				if s, isStruct := (*x).(structure); isStruct {
+					return "(mkp_" + sanitize(types.TypeString(pt.Elem(), qualNone)) + structFields(s, st) + ")"
+				}
+				if sy, isSym := (*x).(Sym); isSym {
+					return "(addr " + sy.T + ")"
+				}
+			}
+		}
+		return "PTR"
+	case structure:
+		if st, ok := t.Underlying().(*types.Struct); ok {
+			return "(mk_" + sanitize(types.TypeString(t, qualNone)) + structFields(x, st) + ")"
+		}
+	}
+	return toV(v)
+}
+
+func structFields(s structure, st *types.Struct) string {
+	var sb strings.Builder
+	for i, f := range s {
+		sb.WriteByte(' ')
+		if i < st.NumFields() {
+			sb.WriteString(toVT(f, st.Field(i).Type()))
+		} else {
+			sb.WriteString(toV(f))
+		}
+	}
+	return sb.String()
 }
